@@ -47,7 +47,8 @@ impl Family for C19Family {
         });
         let max_count = *r.pick(&[0u32, 1, 2, 3, 5]);
         let max_iv = *r.pick(&[100u64, 300, 1000, 10_000, 300_000]);
-        let hs_to_s = *r.pick(&[1u64, 3]);
+        // handshake timeout 0 = disabled (then a stalling server would hold the client forever: no Stall phases)
+        let hs_to_s = if script.contains(&Beh::Stall) { *r.pick(&[1u64, 3]) } else { *r.pick(&[0u64, 1, 3]) };
         let ch_to_s = *r.pick(&[1u64, 2, 5]);
         // local connections: only in the trailing phases after the last phase that serves-then-cuts
         let first_ok = script.iter().rposition(|b| matches!(b, Beh::CloseAfter(_) | Beh::ResetAfter(_))).map(|i| i + 1).unwrap_or(0);
@@ -151,7 +152,7 @@ impl Family for C01Family {
             }
         }
         let udp = (0..n_udp)
-            .map(|_| UdpClient { via_socks: r.chance(1, 2), target: r.below(n_udp_targets), start_ms: r.below(200) as u64, sizes: (0..(1 + r.below(4))).map(|_| *r.pick(&[0usize, 1, 2, 3, 4, 13, 100, 1400, 9000])).collect(), gap_ms: *r.pick(&[0u64, 10, 300, 900]) })
+            .map(|_| UdpClient { via_socks: r.chance(1, 2), target: r.below(n_udp_targets), start_ms: r.below(200) as u64, sizes: (0..(1 + r.below(4))).map(|_| *r.pick(&[0usize, 1, 2, 3, 4, 13, 100, 1400, 9000])).collect(), gap_ms: *r.pick(&[0u64, 10, 300, 900]), hops: (0..4).map(|_| r.below(2)).collect() })
             .collect();
         (serde_json::to_value(C01Plan { net, tcp, udp, n_udp_targets }).expect("plan"), seed)
     }
@@ -169,7 +170,7 @@ fn c01() -> Check {
         engine: "syssim",
         level: "exploration",
         families: vec![Box::new(C01Family)],
-        required_probes: vec!["entry:TCP-port remote", "entry:Unix-socket remote", "entry:SOCKS4", "entry:SOCKS4a", "entry:SOCKS5/IPv4", "entry:SOCKS5/domain", "entry:SOCKS5/IPv6", "entry:HTTP CONNECT", "client-half-closed-first", "target-half-closed-first", "target-refused-or-closed-early", "client-closed-on-silent-target", "udp-via-socks5", "udp-via-remote", "udp-payload-under-4-bytes", "concurrent-udp-clients"],
+        required_probes: vec!["entry:TCP-port remote", "entry:Unix-socket remote", "entry:SOCKS4", "entry:SOCKS4a", "entry:SOCKS5/IPv4", "entry:SOCKS5/domain", "entry:SOCKS5/IPv6", "entry:HTTP CONNECT", "client-half-closed-first", "target-half-closed-first", "target-refused-or-closed-early", "client-closed-on-silent-target", "udp-via-socks5", "udp-via-remote", "udp-payload-under-4-bytes", "concurrent-udp-clients", "one-association-several-targets"],
         assumptions: vec!["UDP exchanges stay inside the prune window and below the datagram buffers, so a missing reply cannot be excused in fault-free configurations", "the SOCKS5 UDP reply header is only required to be well-formed per RFC 1928 and to carry the payload (the statement does not fix its address fields)", "TLS not simulated (ws://)"],
         real: vec!["penguin client: client_main_inner, handle_tcp/udp/socks/http, UDP client-id maps, bridges", "penguin server: run_listener, hyper serve_connection_with_upgrades, State service, handle_websocket, tcp_forwarder_on_channel, udp_forward_on", "tokio-tungstenite both sides", "penguin-mux + penguin-socks + hyper (CONNECT)"],
         stub: vec!["tokio::net (penguin-simnet)", "local clients (written against RFC 1928 / SOCKS4a / HTTP CONNECT)", "targets", "clock (paused), scheduler RNG (seeded)"],
@@ -290,7 +291,7 @@ fn c19() -> Check {
         engine: "syssim",
         level: "fault_enumeration",
         families: vec![Box::new(C19Family)],
-        required_probes: vec!["retry-checked", "backoff-capped", "gave-up-after-max-retries", "non-retryable-failure", "established-connection-lost", "parked-local-connection-served", "fault:tcp-reset", "fault:tcp-refused"],
+        required_probes: vec!["retry-checked", "stream-request-timeout-checked", "backoff-capped", "gave-up-after-max-retries", "non-retryable-failure", "established-connection-lost", "parked-local-connection-served", "fault:tcp-reset", "fault:tcp-refused"],
         assumptions: vec!["zero network latency in this family so that retry instants are exact; TLS is not simulated (ws://)", "the client's keepalive is off (Multiplexor::new_with_opt hard-wires std::time::Instant; keepalive is decided in C16)"],
         real: vec!["penguin client: client_main_inner, retry loop + Backoff, ws_connect::handshake (timeout select), on_connected, get_send_stream_chan, handle_remote/tcp listener", "tokio-tungstenite client and server", "penguin server run_listener + hyper + forwarder (healthy phases)", "penguin-mux with the real tungstenite WebSocket"],
         stub: vec!["tokio::net (penguin-simnet: in-memory sockets, refusal, reset)", "the scripted server (one behaviour per attempt)", "clock (tokio paused)", "tokio scheduler RNG (seeded)"],
